@@ -19,7 +19,7 @@ class VmHarness:
     def close(self):
         shutil.rmtree(self.dir, ignore_errors=True)
 
-    def run(self, src=None, file=None, mem=5000, stack=200, gc=0, execs=1, args=(), trace=True, maxlines=400000, timeout=120, entry="main", cwd=None, pre=(), calls=None, bdump=None, never_path=None):
+    def run(self, src=None, file=None, mem=5000, stack=200, gc=0, execs=1, args=(), trace=True, maxlines=400000, timeout=120, entry="main", cwd=None, pre=(), calls=None, bdump=None, never_path=None, post=None):
         """run the implementation; returns dict(paths, stdout bytes, rc, result lines)"""
         with self._lock:
             k = next(self._cnt)
@@ -32,6 +32,8 @@ class VmHarness:
             cmd += ["-P", ps]
         if calls:
             cmd += ["-c", calls]
+        if post:
+            cmd += ["-Q", post]
         cmd += (["-B", bdump] if bdump else ["-f", file] if file else ["-e", src])
         cmd += list(args)
         env = dict(os.environ, ASAN_OPTIONS="detect_leaks=0:abort_on_error=0:allocator_may_return_null=1", UBSAN_OPTIONS="print_stacktrace=0")
